@@ -105,10 +105,16 @@ def exc_class(e: BaseException) -> str:
 # Lean: build, audit, driver
 # --------------------------------------------------------------------------------------
 class LeanLock:
+    """exclusive for `lake build` (which rewrites .olean files), shared for the readers (audit, model driver), so that
+    checks running side by side never read a half-written build"""
+
+    def __init__(self, shared=False):
+        self.mode = fcntl.LOCK_SH if shared else fcntl.LOCK_EX
+
     def __enter__(self):
         WORK.mkdir(exist_ok=True)
-        self.f = open(WORK / "lake.lock", "w")
-        fcntl.flock(self.f, fcntl.LOCK_EX)
+        self.f = open(WORK / "lake.lock", "a")
+        fcntl.flock(self.f, self.mode)
         return self
 
     def __exit__(self, *a):
@@ -182,14 +188,22 @@ def lean_audit(pid: str) -> dict:
     spec = props_json()[pid]
     thms = spec["theorems"]
     WORK.mkdir(exist_ok=True)
-    f = WORK / f"audit_{pid}.lean"
     lines = [f"import {m}" for m in spec["modules"]]
     for t in thms:
         lines.append(f"#print axioms {t['name']}")
+    # a private file per process (several checks of the same property may run at once); the stable copy named in the
+    # evidence's checker_cmd is replaced atomically
+    f = WORK / f"audit_{pid}.{os.getpid()}.lean"
     f.write_text("\n".join(lines) + "\n")
-    p = subprocess.run(
-        ["lake", "env", "lean", str(f)], cwd=LEAN, capture_output=True, text=True
-    )
+    try:
+        with LeanLock(shared=True):
+            p = subprocess.run(
+                ["lake", "env", "lean", str(f)], cwd=LEAN, capture_output=True, text=True
+            )
+        os.replace(f, WORK / f"audit_{pid}.lean")
+    finally:
+        if f.exists():
+            f.unlink()
     out = p.stdout + p.stderr
     res = {}
     # messages may wrap over several lines
@@ -214,14 +228,15 @@ def run_driver(requests: list[dict], timeout=3600) -> list[dict]:
         return []
     WORK.mkdir(exist_ok=True)
     data = "\n".join(json.dumps(r, separators=(",", ":")) for r in requests) + "\n"
-    p = subprocess.run(
-        ["lake", "env", "lean", "--run", "Driver.lean"],
-        cwd=LEAN,
-        input=data,
-        capture_output=True,
-        text=True,
-        timeout=timeout,
-    )
+    with LeanLock(shared=True):
+        p = subprocess.run(
+            ["lake", "env", "lean", "--run", "Driver.lean"],
+            cwd=LEAN,
+            input=data,
+            capture_output=True,
+            text=True,
+            timeout=timeout,
+        )
     lines = [l for l in p.stdout.split("\n") if l.strip()]
     if p.returncode != 0 or len(lines) != len(requests):
         raise RuntimeError(
